@@ -242,6 +242,9 @@ FinalErr ==
   ELSE IF T.flags.log /\ ~Truncated /\ \E n \in Nodes : lp[n] < Len(Log(n))
   THEN LET n == CHOOSE n \in Nodes : lp[n] < Len(Log(n)) IN
        Err("ExactlyOnce_ExtraExecution", <<n, Log(n)[lp[n] + 1].seq>>, Len(Steps(n)), Len(Log(n)))
+  \* the params the record reports for a node are the params its recorded steps used (logged once per episode)
+  ELSE IF "recparams" \in DOMAIN T /\ \E n \in DOMAIN T.recparams : T.recparams[n] # NodeC(n).p
+  THEN LET n == CHOOSE n \in DOMAIN T.recparams : T.recparams[n] # NodeC(n).p IN Err("RecordParams", <<n>>, NodeC(n).p, T.recparams[n])
   ELSE NoErr
 
 AnyEnabled == (\E n \in Nodes : TEn(n)) \/ (\E x \in Conns : SEn(x)) \/ (\E n \in Nodes : EEn(n))
